@@ -172,6 +172,43 @@ func (bc *boundsCtx) term(v ssa.Value) lterm {
 			}
 		}
 	}
+	// an integer parameter of an unexported function whose every caller passes a constant lies between the smallest and
+	// the largest of them
+	if prm, ok := v.(*ssa.Parameter); ok && intBits(prm.Type()) > 0 {
+		fn := prm.Parent()
+		if fn.Object() != nil && !fn.Object().Exported() {
+			idx := paramIndex(fn, prm)
+			lo, hi, n, okAll := int64(1<<62), int64(-(1 << 62)), 0, true
+			for _, ed := range bc.p.callersOf(fn) {
+				if bc.p.isTestFn(ed.Caller.Func) {
+					continue
+				}
+				args := ed.Site.Common().Args
+				if idx < 0 || idx >= len(args) {
+					okAll = false
+					continue
+				}
+				k, isC := constInt(args[idx])
+				if !isC {
+					okAll = false
+					continue
+				}
+				n++
+				if k < lo {
+					lo = k
+				}
+				if k > hi {
+					hi = k
+				}
+			}
+			if okAll && n > 0 {
+				me := lterm{bc.name(v), 0}
+				bc.z.addLE(lconst(lo), me)
+				bc.z.addLE(me, lconst(hi))
+				return me
+			}
+		}
+	}
 	switch x := v.(type) {
 	case *ssa.BinOp:
 		switch x.Op {
@@ -788,6 +825,11 @@ func (bc *boundsCtx) condFacts(cond ssa.Value, truth bool) []condFact {
 					return []condFact{{token.EQL, bc.lenOf(x.X), lconst(0)}}
 				}
 			}
+			// err == nil after a validating helper: whatever the helper establishes about the length of its slice
+			// arguments on every nil-error return holds on this edge
+			if isNilConst(x.Y) && (op == token.EQL) == truth {
+				return bc.validatorFacts(x.X)
+			}
 			return nil
 		}
 		if !truth {
@@ -996,4 +1038,75 @@ func (bc *boundsCtx) storesField(fa *ssa.FieldAddr) bool {
 		}
 	})
 	return found
+}
+
+var validatorMemo = map[*ssa.Function]map[int]int64{}
+
+// validatorFacts: errV is the error result of a call to a module function; returns len(arg_i) >= k for every slice
+// argument for which every nil-error return of the callee has a zone witness len(param_i) >= k.
+func (bc *boundsCtx) validatorFacts(errV ssa.Value) []condFact {
+	var call *ssa.Call
+	switch x := errV.(type) {
+	case *ssa.Extract:
+		call, _ = x.Tuple.(*ssa.Call)
+		if call != nil && x.Index != call.Call.Signature().Results().Len()-1 {
+			return nil
+		}
+	case *ssa.Call:
+		call = x
+	}
+	if call == nil {
+		return nil
+	}
+	g := calleeFn(call.Common())
+	if g == nil || !isModFn(g) || g.Blocks == nil || g == bc.fn {
+		return nil
+	}
+	sum, ok := validatorMemo[g]
+	if !ok {
+		sum = map[int]int64{}
+		validatorMemo[g] = sum // guards against recursion
+		gbc := newBoundsCtx(bc.p, g)
+		for i, prm := range g.Params {
+			if _, isSl := prm.Type().Underlying().(*types.Slice); !isSl {
+				if b, isB := prm.Type().Underlying().(*types.Basic); !isB || b.Kind() != types.String {
+					continue
+				}
+			}
+			L := gbc.lenOf(prm)
+			min := int64(1 << 30)
+			nret := 0
+			eachInstr(g, func(b *ssa.BasicBlock, _ int, in ssa.Instruction) {
+				r, ok := in.(*ssa.Return)
+				if !ok || len(r.Results) == 0 {
+					return
+				}
+				if !isNilConst(r.Results[len(r.Results)-1]) {
+					return
+				}
+				nret++
+				z := gbc.zoneAt(b)
+				k := int64(0)
+				for t := int64(64); t >= 1; t-- {
+					if z.entLE(lconst(t), L) {
+						k = t
+						break
+					}
+				}
+				if k < min {
+					min = k
+				}
+			})
+			if nret > 0 && min >= 1 && min < 1<<30 {
+				sum[i] = min
+			}
+		}
+	}
+	var out []condFact
+	for i, k := range sum {
+		if i < len(call.Call.Args) {
+			out = append(out, condFact{token.GEQ, bc.lenOf(call.Call.Args[i]), lconst(k)})
+		}
+	}
+	return out
 }
